@@ -11,6 +11,7 @@ type pMsgSpec struct {
 	CB      bool        `json:"cb,omitempty"`
 	Pause   bool        `json:"pause,omitempty"` // exec: block inside the command until released (label exec:<idx>)
 	Read    int         `json:"read,omitempty"`
+	Fast    bool        `json:"fast,omitempty"`     // exec: the command returns at once (no 20 ms of "work")
 	CloseIn bool        `json:"close_in,omitempty"` // exec: the command closes the program's input (the read end it was given)
 	W       int         `json:"w,omitempty"`
 	H       int         `json:"h,omitempty"`
